@@ -201,11 +201,11 @@ fn cut(buf: &[u8]) {
     n_b = len(cases)
     # ---- C (thorough): all shapes with 4 nodes over scalar leaves + text; cuts: all for 3-node, some for 4-node
     cases = []
-    for t in trees(4, ["S", "T"]):
+    for t in trees(4, ["S"]):
         txt, end = case_text(t, [0], "none")
         cases.append(txt)
     for i in range(0, len(cases), per * 2):
-        harness("c06_shapes4_%03d" % (i // (per * 2)), cases[i:i + per * 2], "thorough", "all trees with 4 nodes over {scalar, text} leaves, preferred widths", 18)
+        harness("c06_shapes4_%03d" % (i // (per * 2)), cases[i:i + per * 2], "thorough", "all trees with 4 nodes over the scalar leaf, preferred widths", 18)
     n_c = len(cases)
     # ---- E: mode-switch family.  The algorithm counts items (`nrounds`), counts open indefinite containers (`irounds`) and
     # switches to an explicit stack when an indefinite container appears inside a definite one with >= 2 items outstanding.
